@@ -56,6 +56,79 @@ def check_rows(r, k):
     return None
 
 
+# ------------------------------------------------------------------ parallel: many workers derive the same tuple / lattice key at once
+
+RACE_PROGRAMS = [
+    # (name, text, rels, expected(inp) -> {rel: set of tuples} for derived relations)
+    ("fanin", "relation src(i32); relation item(i32); relation out(i32);\nout(y) <-- src(x), item(y);",
+     [("src", 1, "rel"), ("item", 1, "rel"), ("out", 1, "rel")],
+     lambda inp: {"out": {(y,) for (y,) in inp["item"]} if inp["src"] else set()}),
+    ("fanin_two_heads", "relation src(i32); relation item(i32); relation out(i32); relation seen(i32, i32);\nout(y), seen(y, y + 1) <-- src(x), item(y);",
+     [("src", 1, "rel"), ("item", 1, "rel"), ("out", 1, "rel"), ("seen", 2, "rel")],
+     lambda inp: {"out": {(y,) for (y,) in inp["item"]} if inp["src"] else set(), "seen": {(y, y + 1) for (y,) in inp["item"]} if inp["src"] else set()}),
+    ("reach_dense", "relation src(i32); relation item(i32); relation reach(i32); relation edge(i32, i32);\nedge(x, y) <-- src(x), item(y);\nreach(0);\nreach(y) <-- reach(x), edge(x, y);",
+     [("src", 1, "rel"), ("item", 1, "rel"), ("reach", 1, "rel"), ("edge", 2, "rel")],
+     lambda inp: {"edge": {(x, y) for (x,) in inp["src"] for (y,) in inp["item"]},
+                  "reach": ({(0,)} | ({(y,) for (y,) in inp["item"]} if (0,) in set(inp["src"]) else set()))}),
+    ("lattice_key", "relation src(i32, i32); relation item(i32); lattice best(i32, i32);\nbest(y, *v) <-- src(x, v), item(y);",
+     [("src", 2, "rel"), ("item", 1, "rel"), ("best", 2, ("lat", "max"))],
+     lambda inp: {"best": {(y, max(v for _, v in inp["src"])) for (y,) in inp["item"]} if inp["src"] else set()}),
+]
+
+
+def race_runs(tier, seed):
+    rng = lib.rng_for(seed, PROP, "race")
+    pools = (2, 8, 16)
+    nseeds = 2 if tier == "quick" else 6
+    jobs, meta = [], {}
+    for name, text, rels, expect in RACE_PROGRAMS:
+        nsrc, nitem = rng.choice([(48, 1500), (64, 1000), (24, 2500)])
+        if name == "reach_dense":
+            nsrc, nitem = rng.choice([(40, 300), (60, 200)])
+        if name == "lattice_key":
+            inp = {"src": [(x, rng.randrange(1000)) for x in range(nsrc)], "item": [(y,) for y in range(nitem)]}
+        else:
+            inp = {"src": [(x,) for x in range(nsrc)], "item": [(y,) for y in range(nitem)]}
+        exp = expect(inp)
+        for pool in pools:
+            jid = "race_%s_t%d" % (name, pool)
+            seeds = [0] + [rng.randrange(1, 2 ** 31) for _ in range(nseeds - 1)]
+            scripts = [[("raw", "ascent::verif_hooks::arm_perturb(%d);" % sd), ("set", inp), ("run",), ("snap",), ("raw", "ascent::verif_hooks::arm_perturb(0);")] for sd in seeds]
+            jobs.append(dict(id=jid, text=text, macro="ascent_par", rels=rels, scripts=scripts, threads=pool))
+            meta[jid] = (name, text, rels, inp, exp, pool, seeds)
+    impl = prog.build_and_run("c05race", jobs, features=("verif_hooks",), run_timeout=300)
+    mism, nruns, by = [], 0, {}
+    for jid, (name, text, rels, inp, exp, pool, seeds) in meta.items():
+        res = impl.get(jid)
+        for k, sd in enumerate(seeds):
+            iv = res[k] if res else None
+            cs = dict(program=text, macro="ascent_par!", pool_threads=pool, perturbation_seed=sd, input_sizes={r: len(ts) for r, ts in inp.items()},
+                      input="src = 0..%d (x a value column for lattice_key), item = 0..%d" % (len(inp["src"]), len(inp["item"])))
+            if iv is None or "snaps" not in iv:
+                mism.append(dict(case=cs, impl=iv, model=None, spec=None, kind="impl_violates_spec", known=None, what="parallel run did not complete: %s" % json.dumps(iv)[:300]))
+                continue
+            nruns += 1
+            by[name] = by.get(name, 0) + 1
+            rows = prog.rows_snap(iv["snaps"][-1])
+            for rel, _, kind in rels:
+                got = rows[rel]
+                if rel in inp:
+                    if sorted(got) != sorted(inp[rel]):
+                        mism.append(dict(case=cs, impl={rel: len(got)}, model=None, spec={rel: len(inp[rel])}, kind="impl_violates_spec", known=None,
+                                         what="parallel run: the input relation %s was modified (%d rows, %d in the input)" % (rel, len(got), len(inp[rel]))))
+                    continue
+                keys = [t[:-1] for t in got] if isinstance(kind, tuple) else got
+                if len(keys) != len(set(keys)):
+                    dup = sorted({t for t in keys if keys.count(t) > 1})[:4] if len(keys) < 5000 else "(many)"
+                    mism.append(dict(case=cs, impl={rel: dict(rows=len(got), distinct=len(set(keys)))}, model=None, spec={rel: len(exp[rel])}, kind="impl_violates_spec", known=None,
+                                     what="parallel run (pool of %d, perturbation seed %d): %s holds %d rows for %d distinct %s: workers deriving the same %s at the same time both appended it %s" % (
+                                         pool, sd, rel, len(got), len(set(keys)), "keys" if isinstance(kind, tuple) else "tuples", "key" if isinstance(kind, tuple) else "tuple", dup)))
+                elif set(got) != exp[rel]:
+                    mism.append(dict(case=cs, impl={rel: len(got)}, model=None, spec={rel: len(exp[rel])}, kind="impl_violates_spec", known=None,
+                                     what="parallel run (pool of %d): %s differs from the expected contents (missing %s, extra %s)" % (pool, rel, sorted(exp[rel] - set(got))[:3], sorted(set(got) - exp[rel])[:3])))
+    return dict(mismatches=mism, runs=nruns, by_program=by, pools=list(pools), schedules=nseeds)
+
+
 def tie(tier, seed, replay):
     cases = gen_cases(tier, seed)
     results = []
@@ -90,11 +163,13 @@ def tie(tier, seed, replay):
                         mism.append(dict(case=dict(program=r["text"], input=inp), impl={name: len(rows[name])}, model={name: mg[name][0]}, spec="implementation meets C05 on this case",
                                          kind="model_differs", known=None, what="correspondence Engine/Eval.v rows vs generated code: row count of %s" % name))
                         break
-    return dict(evaluations=sum(len(r["case"]["inputs"]) for r in results), distinct_nontrivial=len(distinct),
-                rule="random programs (3/4 positive, 1/4 stratified with aggregates) x 3 inputs, one of them with caller-supplied duplicate rows; observables: input rows are an unmodified prefix, appended rows are pairwise distinct and absent from the input, contents equal the specification, row counts equal the model's; non-trivial = the run derives something; distinct = distinct (program, input)",
+    race = race_runs(tier, seed)
+    mism += race["mismatches"]
+    return dict(evaluations=sum(len(r["case"]["inputs"]) for r in results) + race["runs"], distinct_nontrivial=len(distinct) + race["runs"],
+                rule="(parallel race family: four programs in which 24-64 workers' worth of outer tuples derive the same 200-2500 tuples / lattice keys in the same iteration — fan-in, multi-head, dense reachability, one lattice key per item — under ascent_par! in pools of 2, 8, 16 with seeded perturbation; observables: rows = distinct tuples / keys, contents, inputs untouched) + random programs (3/4 positive, 1/4 stratified with aggregates) x 3 inputs, one of them with caller-supplied duplicate rows; observables: input rows are an unmodified prefix, appended rows are pairwise distinct and absent from the input, contents equal the specification, row counts equal the model's; non-trivial = the run derives something; distinct = distinct (program, input)",
                 samples=[dict(program=r["text"], input=r["case"]["inputs"][2], rows=prog.rows_snap(r["impl"][2]["snaps"][-1]) if r["impl"] and "snaps" in r["impl"][2] else None) for r in results[:2]],
                 distribution=dict(programs=len(results), inputs_with_duplicates=ndup, with_aggregates=sum(1 for r in results if r["case"]["agg"])),
                 mismatches=mism,
                 trusted_base=["FRONT hook + plan translation; generated crates; rows printed in Vec order by the harness"],
-                assumptions=["serial macros only in this tie; the parallel half is exercised by C02's tie and proved at the index level in C19"],
-                extra=dict(cases_skipped_model_too_slow=nskipped))
+                assumptions=["random programs run through the serial macro here (their parallel runs are C02's tie); the race family runs through ascent_par!"],
+                extra=dict(cases_skipped_model_too_slow=nskipped, parallel_race_runs=race["runs"], parallel_race_distribution=dict(by_program=race["by_program"], pools=race["pools"], schedules_per_pool=race["schedules"])))
